@@ -691,10 +691,11 @@ def sim_open(file, mode="r", buffering=-1, encoding=None, errors=None,
         buf = io.BufferedReader(raw, buffering)
     if binary:
         return buf
-    if encoding is None:
-        encoding = "utf-8"
-    elif encoding == "locale":
-        encoding = "utf-8"
+    if encoding is None or encoding == "locale":
+        # the locale encoding of the calling (virtual) process
+        g = SEAM.gate
+        encoding = g.locale_encoding() if g is not None and hasattr(
+            g, "locale_encoding") else "utf-8"
     txt = io.TextIOWrapper(buf, encoding, errors, newline, line_buffering)
     txt.mode = mode
     return txt
